@@ -655,6 +655,7 @@ static inline int myth_join_body(myth_thread_t th,void **result) {
 #endif
     next->env=env;
     MYTH_VERIF_COV(JOIN_BLOCK_NEXT);
+    MYTH_VERIF_POINT(JOIN_BEFORE_SWITCH);
     //Switch to next runnable thread
     myth_swap_context_withcall(&this_thread->context,&next->context,myth_join_2,
 			       (void*)env,(void*)th,(void*)next);
@@ -667,6 +668,7 @@ static inline int myth_join_body(myth_thread_t th,void **result) {
     //myth_log_add(this_thread->env,MYTH_LOG_WS);
     //Since there is no runnable thread, switch to scheduler and do work-steaing
     MYTH_VERIF_COV(JOIN_BLOCK_SCHED);
+    MYTH_VERIF_POINT(JOIN_BEFORE_SWITCH);
     myth_swap_context_withcall(&this_thread->context,&env->sched.context,myth_join_3,
 			       (void*)this_thread,(void*)th,NULL);
   }
